@@ -1,72 +1,23 @@
 (* C10: the grad grad B tensor, by certificates.
-   S = object state (attribute values); VA, V1, V2, VG, VT, VY, VC = models (Shallow.stage) of the programs regenerated from
+   S = object state (attribute values); VA, V1, V2, VG, VT, VY, VC, VR = models (Shallow.stage) of the programs regenerated from
    init_axis, r1_diagnostics (either helicity variant), calculate_r2 (either variant), calculate_grad_grad_B_tensor,
-   calculate_grad_B_tensor, grad_grad_B_tensor_cylindrical, grad_grad_B_tensor_cartesian.  Continuum model: derivation O.
+   calculate_grad_B_tensor, grad_grad_B_tensor_cylindrical, grad_grad_B_tensor_cartesian, _residual.  Continuum model: derivation O.
    Method: the definitions of the 54 entries are pulled from the regenerated program (unfold_fix); the first-order
    quantities are expressed through X1c and its derivatives using X1c*Y1s = sG*spsi, kappa*X1c = etabar (both
    differentiated with the Leibniz rule), Y2s/Y2c through the two algebraic O(r^2) relations (and their derivatives), and
-   every identity is then closed by [field] modulo sG^2 = spsi^2 = 1.
-   PROVED: (d) two_ways (27 entries), (a) sym12, (b) divfree, (e) tangent_contraction, (f) scale_length,
+   every identity is then closed by [field] modulo sG^2 = spsi^2 = 1 (shared lemmas: props/C10_common.v).
+   PROVED HERE: (d) two_ways (27 entries), (a) sym12, (b) divfree, (e) tangent_contraction, (f) scale_length,
    (g) cylindrical_is_frenet / cartesian_is_rotation_of_that, and of (c) the tangent slice a = 2 for ANY current
-   (tangent_slice_curl; needs the sigma equation and its derivative) with its vacuum corollary.
-   NOT PROVED here: the rest of (c) (sym23 for a = 0, 1 and harmonic), which needs every O(r^2) definition (Z2*, X2s, X2c,
-   B20, G2), the sigma equation and the two O(r^2) differential equations. *)
+   (tangent_slice_curl) with its vacuum corollary.  The rest of (c) is in props/C10_vacuum.v. *)
 From Coq Require Import Reals String List Lra Lia QArith Qreals FunctionalExtensionality.
 From QSC Require Import Expr Shallow.
-From QSCGen Require Import G_init_axis G_r1_diagnostics G_calculate_r2 G_calculate_grad_grad_B_tensor
-     G_calculate_grad_B_tensor G_residual G_grad_grad_B_tensor_cylindrical G_grad_grad_B_tensor_cartesian.
-From QSCProps Require Import C10_spec.
+From QSCGen Require Import G_init_axis G_r1_diagnostics G_calculate_r2 G_residual G_calculate_grad_grad_B_tensor
+     G_calculate_grad_B_tensor G_grad_grad_B_tensor_cylindrical G_grad_grad_B_tensor_cartesian.
+From QSCProps Require Import C10_spec C10_common.
 Open Scope R_scope.
 Open Scope string_scope.
 
-(* ---------- d/dvarphi is a derivation ---------- *)
-Section Deriv.
-  Context {I : Type} (O : ops I) (HD : derivation O) (S : string -> I -> R).
-  Notation Dv := (Dv O S).
-  Let HL := der_lin O HD.
-  Lemma Dv_mul f g i : Dv (fun k => f k * g k) i = Dv f i * g i + f i * Dv g i.
-  Proof. unfold C10_spec.Dv. rewrite (D_mul O HD). unfold Rdiv; ring. Qed.
-  Lemma Dv_add f g i : Dv (fun k => f k + g k) i = Dv f i + Dv g i.
-  Proof. unfold C10_spec.Dv. rewrite (D_add O HL). unfold Rdiv; ring. Qed.
-  Lemma Dv_sub f g i : Dv (fun k => f k - g k) i = Dv f i - Dv g i.
-  Proof. unfold C10_spec.Dv. rewrite (D_sub O HL). unfold Rdiv; ring. Qed.
-  Lemma Dv_neg f i : Dv (fun k => - f k) i = - Dv f i.
-  Proof. unfold C10_spec.Dv. rewrite (D_neg O HL). unfold Rdiv; ring. Qed.
-  Lemma Dv_cst c i : Dv (fun _ => c) i = 0.
-  Proof. unfold C10_spec.Dv. rewrite (D_const O HD). unfold Rdiv; ring. Qed.
-  Lemma Dv_isconst f i : is_const f -> Dv f i = 0.
-  Proof. intros [c ->]. apply Dv_cst. Qed.
-  Lemma Dv_ext f g i : (forall k, f k = g k) -> Dv f i = Dv g i.
-  Proof. intros H. replace f with g; [reflexivity|]. apply functional_extensionality. intros k; symmetry; apply H. Qed.
-  Lemma is_const_mul f g : is_const f -> is_const g -> is_const (fun k : I => f k * g k).
-  Proof. intros [a ->] [b ->]. exists (a * b). reflexivity. Qed.
-  (* f g = constant  ==>  f' g + f g' = 0 *)
-  Lemma prod_const f g c : (forall k, f k * g k = c k) -> is_const c ->
-    forall i, Dv f i * g i + f i * Dv g i = 0.
-  Proof. intros H Hc i. rewrite <- Dv_mul. rewrite (Dv_ext _ c) by exact H. apply Dv_isconst; exact Hc. Qed.
-  (* ... and once more:  f'' g + 2 f' g' + f g'' = 0 *)
-  Lemma prod_const2 f g f1 g1 : (forall k, f1 k = Dv f k) -> (forall k, g1 k = Dv g k) ->
-    (forall k, f1 k * g k + f k * g1 k = 0) ->
-    forall i, Dv f1 i * g i + 2 * f1 i * g1 i + f i * Dv g1 i = 0.
-  Proof.
-    intros Hf Hg H i.
-    assert (E : Dv (fun k => f1 k * g k + f k * g1 k) i = 0).
-    { rewrite (Dv_ext _ (fun _ => 0)) by exact H. apply Dv_cst. }
-    rewrite Dv_add, !Dv_mul in E. rewrite <- Hf, <- Hg in E. lra.
-  Qed.
-End Deriv.
-
-Lemma pm1 (x : R) : x * x = 1 -> x = 1 \/ x = -1.
-Proof.
-  intros H. assert (E : (x - 1) * (x + 1) = 0) by (ring_simplify; lra).
-  apply Rmult_integral in E. destruct E; [left|right]; lra.
-Qed.
-
-Ltac r1_dattr P H nm base :=
-  rewrite <- (st_agree _ _ _ _ H nm eq_refl);
-  unfold_fix O P (st_fix _ _ _ _ H) nm; to_state H; reflexivity.
-
-Section Facts.
+Section Main.
   Context {I : Type} (O : ops I) (HD : derivation O) (S VA V1 V2 : string -> I -> R).
   Hypothesis Hadm : admissible S.
   Hypothesis HA : stage O init_axis S VA.
@@ -76,205 +27,54 @@ Section Facts.
   Notation sG := (S "s.sG"). Notation spsi := (S "s.spsi"). Notation kap := (S "s.curvature").
   Notation etabar := (S "s.etabar"). Notation X1c := (S "s.X1c"). Notation Y1s := (S "s.Y1s"). Notation Y1c := (S "s.Y1c").
   Notation aGB := (S "s.abs_G0_over_B0"). Notation B0 := (S "s.B0").
-
-  (* ---- init_axis ---- *)
-  Lemma F_X1c i : X1c i = etabar i / kap i.
-  Proof.
-    rewrite <- (st_agree _ _ _ _ HA "s.X1c" eq_refl), <- (st_agree _ _ _ _ HA "s.curvature" eq_refl).
-    unfold_fixes O init_axis (st_fix _ _ _ _ HA) ("s.X1c" :: "s.curvature" :: nil)%list. to_state HA. reflexivity.
-  Qed.
-  Lemma F_G0 i : S "s.G0" i = sG i * aGB i * B0 i.
-  Proof.
-    rewrite <- (st_agree _ _ _ _ HA "s.G0" eq_refl), <- (st_agree _ _ _ _ HA "s.abs_G0_over_B0" eq_refl).
-    unfold_fixes O init_axis (st_fix _ _ _ _ HA) ("s.G0" :: "G0" :: "s.abs_G0_over_B0" :: nil)%list. to_state HA. reflexivity.
-  Qed.
-  Lemma F_dldvp i : S "s.d_l_d_varphi" i = aGB i.
-  Proof.
-    rewrite <- (st_agree _ _ _ _ HA "s.d_l_d_varphi" eq_refl), <- (st_agree _ _ _ _ HA "s.abs_G0_over_B0" eq_refl).
-    unfold_fixes O init_axis (st_fix _ _ _ _ HA) ("s.d_l_d_varphi" :: "s.abs_G0_over_B0" :: nil)%list. reflexivity.
-  Qed.
-  Lemma F_absG0 i : Rabs (S "s.G0" i) = aGB i * B0 i.
-  Proof.
-    rewrite F_G0. pose proof (adm_lp S Hadm i). pose proof (adm_B0 S Hadm i).
-    assert (0 < aGB i * B0 i) by (apply Rmult_lt_0_compat; assumption).
-    destruct (pm1 _ (adm_sG S Hadm i)) as [E|E]; rewrite E.
-    - rewrite Rabs_right; [ring|]. apply Rle_ge. replace (1 * aGB i * B0 i) with (aGB i * B0 i) by ring. lra.
-    - replace (-1 * aGB i * B0 i) with (- (aGB i * B0 i)) by ring. rewrite Rabs_Ropp. rewrite Rabs_right; [ring|]. lra.
-  Qed.
-  Lemma X1c_nz i : X1c i <> 0.
-  Proof.
-    rewrite F_X1c. pose proof (adm_eta S Hadm i). pose proof (adm_kappa S Hadm i).
-    unfold Rdiv. apply Rmult_integral_contrapositive_currified; [assumption|]. apply Rinv_neq_0_compat; assumption.
-  Qed.
-
-  (* ---- r1_diagnostics ---- *)
-  Lemma F_Y1s i : Y1s i = sG i * spsi i * kap i / etabar i.
-  Proof.
-    destruct H1 as [H|H]; rewrite <- (st_agree _ _ _ _ H "s.Y1s" eq_refl).
-    - unfold_fix O r1_diagnostics_h0 (st_fix _ _ _ _ H) "s.Y1s". to_state H. reflexivity.
-    - unfold_fix O r1_diagnostics_hN (st_fix _ _ _ _ H) "s.Y1s". to_state H. reflexivity.
-  Qed.
-  Lemma F_Y1c i : Y1c i = sG i * spsi i * kap i * S "s.sigma" i / etabar i.
-  Proof.
-    destruct H1 as [H|H]; rewrite <- (st_agree _ _ _ _ H "s.Y1c" eq_refl).
-    - unfold_fix O r1_diagnostics_h0 (st_fix _ _ _ _ H) "s.Y1c". to_state H. reflexivity.
-    - unfold_fix O r1_diagnostics_hN (st_fix _ _ _ _ H) "s.Y1c". to_state H. reflexivity.
-  Qed.
-  Lemma F_dX1c i : S "s.d_X1c_d_varphi" i = Dv X1c i.
-  Proof.
-    unfold C10_spec.Dv. destruct H1 as [H|H]; rewrite <- (st_agree _ _ _ _ H "s.d_X1c_d_varphi" eq_refl).
-    - unfold_fix O r1_diagnostics_h0 (st_fix _ _ _ _ H) "s.d_X1c_d_varphi". to_state H. reflexivity.
-    - unfold_fix O r1_diagnostics_hN (st_fix _ _ _ _ H) "s.d_X1c_d_varphi". to_state H. reflexivity.
-  Qed.
-  Lemma F_dY1s i : S "s.d_Y1s_d_varphi" i = Dv Y1s i.
-  Proof.
-    unfold C10_spec.Dv. destruct H1 as [H|H]; rewrite <- (st_agree _ _ _ _ H "s.d_Y1s_d_varphi" eq_refl).
-    - unfold_fix O r1_diagnostics_h0 (st_fix _ _ _ _ H) "s.d_Y1s_d_varphi". to_state H. reflexivity.
-    - unfold_fix O r1_diagnostics_hN (st_fix _ _ _ _ H) "s.d_Y1s_d_varphi". to_state H. reflexivity.
-  Qed.
-  Lemma F_dY1c i : S "s.d_Y1c_d_varphi" i = Dv Y1c i.
-  Proof.
-    unfold C10_spec.Dv. destruct H1 as [H|H]; rewrite <- (st_agree _ _ _ _ H "s.d_Y1c_d_varphi" eq_refl).
-    - unfold_fix O r1_diagnostics_h0 (st_fix _ _ _ _ H) "s.d_Y1c_d_varphi". to_state H. reflexivity.
-    - unfold_fix O r1_diagnostics_hN (st_fix _ _ _ _ H) "s.d_Y1c_d_varphi". to_state H. reflexivity.
-  Qed.
-
-  (* ---- calculate_r2 ---- *)
-  Ltac loc2attr P H l a :=
-    match type of H with stage _ _ _ ?V =>
-      let E := fresh "E" in
-      let Hd := constr:(@eq_refl (option expr) (Some (Var l)) <: defn P a = Some (Var l)) in
-      assert (E : V l = V a) by (symmetry; exact (st_fix _ _ _ _ H a (Var l) Hd));
-      rewrite ?E; clear E end.
-  (* attr = Dphi(Var loc)/dvp and s.base = Var loc *)
-  Ltac dattr_loc P H attr base :=
-    unfold C10_spec.Dv; rewrite <- (st_agree _ _ _ _ H attr eq_refl), <- (st_agree _ _ _ _ H base eq_refl);
-    unfold_fixes O P (st_fix _ _ _ _ H) (attr :: base :: nil)%list; to_state H; reflexivity.
-  Ltac dattr_attr P H attr :=
-    unfold C10_spec.Dv; rewrite <- (st_agree _ _ _ _ H attr eq_refl);
-    unfold_fixes O P (st_fix _ _ _ _ H) (attr :: "curvature" :: "torsion" :: nil)%list; to_state H; reflexivity.
+  Local Notation F_X1c := (C10_common.F_X1c O HD S VA V1 V2 Hadm HA H1 H2).
+  Local Notation F_G0 := (C10_common.F_G0 O HD S VA V1 V2 Hadm HA H1 H2).
+  Local Notation F_dldvp := (C10_common.F_dldvp O HD S VA V1 V2 Hadm HA H1 H2).
+  Local Notation F_absG0 := (C10_common.F_absG0 O HD S VA V1 V2 Hadm HA H1 H2).
+  Local Notation X1c_nz := (C10_common.X1c_nz O HD S VA V1 V2 Hadm HA H1 H2).
+  Local Notation F_Y1s := (C10_common.F_Y1s O HD S VA V1 V2 Hadm HA H1 H2).
+  Local Notation F_Y1c := (C10_common.F_Y1c O HD S VA V1 V2 Hadm HA H1 H2).
+  Local Notation F_dX1c := (C10_common.F_dX1c O HD S VA V1 V2 Hadm HA H1 H2).
+  Local Notation F_dY1s := (C10_common.F_dY1s O HD S VA V1 V2 Hadm HA H1 H2).
+  Local Notation F_dY1c := (C10_common.F_dY1c O HD S VA V1 V2 Hadm HA H1 H2).
+  Local Notation F_dX20 := (C10_common.F_dX20 O HD S VA V1 V2 Hadm HA H1 H2).
+  Local Notation F_dX2s := (C10_common.F_dX2s O HD S VA V1 V2 Hadm HA H1 H2).
+  Local Notation F_dX2c := (C10_common.F_dX2c O HD S VA V1 V2 Hadm HA H1 H2).
+  Local Notation F_dY20 := (C10_common.F_dY20 O HD S VA V1 V2 Hadm HA H1 H2).
+  Local Notation F_dY2s := (C10_common.F_dY2s O HD S VA V1 V2 Hadm HA H1 H2).
+  Local Notation F_dY2c := (C10_common.F_dY2c O HD S VA V1 V2 Hadm HA H1 H2).
+  Local Notation F_dZ20 := (C10_common.F_dZ20 O HD S VA V1 V2 Hadm HA H1 H2).
+  Local Notation F_dZ2s := (C10_common.F_dZ2s O HD S VA V1 V2 Hadm HA H1 H2).
+  Local Notation F_dZ2c := (C10_common.F_dZ2c O HD S VA V1 V2 Hadm HA H1 H2).
+  Local Notation F_dkap := (C10_common.F_dkap O HD S VA V1 V2 Hadm HA H1 H2).
+  Local Notation F_dtau := (C10_common.F_dtau O HD S VA V1 V2 Hadm HA H1 H2).
+  Local Notation F_d2X1c := (C10_common.F_d2X1c O HD S VA V1 V2 Hadm HA H1 H2).
+  Local Notation F_d2Y1s := (C10_common.F_d2Y1s O HD S VA V1 V2 Hadm HA H1 H2).
+  Local Notation F_d2Y1c := (C10_common.F_d2Y1c O HD S VA V1 V2 Hadm HA H1 H2).
+  Local Notation F_Y2s := (C10_common.F_Y2s O HD S VA V1 V2 Hadm HA H1 H2).
+  Local Notation F_Y2c := (C10_common.F_Y2c O HD S VA V1 V2 Hadm HA H1 H2).
+  Local Notation sGspsi_const := (C10_common.sGspsi_const O HD S VA V1 V2 Hadm HA H1 H2).
+  Local Notation R_XY := (C10_common.R_XY O HD S VA V1 V2 Hadm HA H1 H2).
+  Local Notation R_dXY := (C10_common.R_dXY O HD S VA V1 V2 Hadm HA H1 H2).
+  Local Notation R_d2XY := (C10_common.R_d2XY O HD S VA V1 V2 Hadm HA H1 H2).
+  Local Notation R_kX := (C10_common.R_kX O HD S VA V1 V2 Hadm HA H1 H2).
+  Local Notation R_dkX := (C10_common.R_dkX O HD S VA V1 V2 Hadm HA H1 H2).
+  Local Notation S_Y1s := (C10_common.S_Y1s O HD S VA V1 V2 Hadm HA H1 H2).
+  Local Notation S_dY1s := (C10_common.S_dY1s O HD S VA V1 V2 Hadm HA H1 H2).
+  Local Notation S_d2Y1s := (C10_common.S_d2Y1s O HD S VA V1 V2 Hadm HA H1 H2).
+  Local Notation S_kap := (C10_common.S_kap O HD S VA V1 V2 Hadm HA H1 H2).
+  Local Notation S_dkap := (C10_common.S_dkap O HD S VA V1 V2 Hadm HA H1 H2).
+  Local Notation R_Y2s := (C10_common.R_Y2s O HD S VA V1 V2 Hadm HA H1 H2).
+  Local Notation R_Y2c := (C10_common.R_Y2c O HD S VA V1 V2 Hadm HA H1 H2).
+  Local Notation R_dY2s := (C10_common.R_dY2s O HD S VA V1 V2 Hadm HA H1 H2).
+  Local Notation R_dY2c := (C10_common.R_dY2c O HD S VA V1 V2 Hadm HA H1 H2).
+  Local Notation sG_nz := (C10_common.sG_nz O HD S VA V1 V2 Hadm HA H1 H2).
+  Local Notation spsi_nz := (C10_common.spsi_nz O HD S VA V1 V2 Hadm HA H1 H2).
+  Ltac dv_push := dv_push_ O HD.
   Ltac both tac := destruct H2 as [H|H]; [tac calculate_r2_h0 H | tac calculate_r2_hN H].
-
-  Lemma F_dX20 i : S "s.d_X20_d_varphi" i = Dv (S "s.X20") i.
-  Proof. both ltac:(fun P H => dattr_loc P H "s.d_X20_d_varphi" "s.X20"). Qed.
-  Lemma F_dX2s i : S "s.d_X2s_d_varphi" i = Dv (S "s.X2s") i.
-  Proof. both ltac:(fun P H => dattr_loc P H "s.d_X2s_d_varphi" "s.X2s"). Qed.
-  Lemma F_dX2c i : S "s.d_X2c_d_varphi" i = Dv (S "s.X2c") i.
-  Proof. both ltac:(fun P H => dattr_loc P H "s.d_X2c_d_varphi" "s.X2c"). Qed.
-  Lemma F_dY20 i : S "s.d_Y20_d_varphi" i = Dv (S "s.Y20") i.
-  Proof. both ltac:(fun P H => dattr_loc P H "s.d_Y20_d_varphi" "s.Y20"). Qed.
-  Lemma F_dY2s i : S "s.d_Y2s_d_varphi" i = Dv (S "s.Y2s") i.
-  Proof. both ltac:(fun P H => dattr_loc P H "s.d_Y2s_d_varphi" "s.Y2s"). Qed.
-  Lemma F_dY2c i : S "s.d_Y2c_d_varphi" i = Dv (S "s.Y2c") i.
-  Proof. both ltac:(fun P H => dattr_loc P H "s.d_Y2c_d_varphi" "s.Y2c"). Qed.
-  Lemma F_dZ20 i : S "s.d_Z20_d_varphi" i = Dv (S "s.Z20") i.
-  Proof. both ltac:(fun P H => dattr_loc P H "s.d_Z20_d_varphi" "s.Z20"). Qed.
-  Lemma F_dZ2s i : S "s.d_Z2s_d_varphi" i = Dv (S "s.Z2s") i.
-  Proof. both ltac:(fun P H => dattr_loc P H "s.d_Z2s_d_varphi" "s.Z2s"). Qed.
-  Lemma F_dZ2c i : S "s.d_Z2c_d_varphi" i = Dv (S "s.Z2c") i.
-  Proof. both ltac:(fun P H => dattr_loc P H "s.d_Z2c_d_varphi" "s.Z2c"). Qed.
-  Lemma F_dkap i : S "s.d_curvature_d_varphi" i = Dv kap i.
-  Proof. both ltac:(fun P H => dattr_attr P H "s.d_curvature_d_varphi"). Qed.
-  Lemma F_dtau i : S "s.d_torsion_d_varphi" i = Dv (S "s.torsion") i.
-  Proof. both ltac:(fun P H => dattr_attr P H "s.d_torsion_d_varphi"). Qed.
-  Lemma F_d2X1c i : S "s.d2_X1c_d_varphi2" i = Dv (S "s.d_X1c_d_varphi") i.
-  Proof. both ltac:(fun P H => dattr_attr P H "s.d2_X1c_d_varphi2"). Qed.
-  Lemma F_d2Y1s i : S "s.d2_Y1s_d_varphi2" i = Dv (S "s.d_Y1s_d_varphi") i.
-  Proof. both ltac:(fun P H => dattr_attr P H "s.d2_Y1s_d_varphi2"). Qed.
-  Lemma F_d2Y1c i : S "s.d2_Y1c_d_varphi2" i = Dv (S "s.d_Y1c_d_varphi") i.
-  Proof. both ltac:(fun P H => dattr_attr P H "s.d2_Y1c_d_varphi2"). Qed.
-
-  Ltac y2_prep P H nm :=
-    rewrite <- (st_agree _ _ _ _ H nm eq_refl);
-    unfold_fixes O P (st_fix _ _ _ _ H) (nm :: "Y2s" :: "Y2c" :: "Y2s_inhomogeneous" :: "Y2s_from_X20" :: "Y2c_inhomogeneous" :: "Y2c_from_X20"
-         :: "sG" :: "spsi" :: "curvature" :: "etabar" :: "sigma" :: nil)%list;
-    loc2attr P H "X20" "s.X20"; loc2attr P H "Y20" "s.Y20"; loc2attr P H "X2s" "s.X2s"; loc2attr P H "X2c" "s.X2c";
-    to_state H; qsimp.
-  Lemma F_Y2s i : S "s.Y2s" i =
-     sG i * spsi i * (- kap i / 2 + kap i * kap i / (etabar i * etabar i) * (- S "s.X2c" i + S "s.X2s" i * S "s.sigma" i))
-     - sG i * spsi i * kap i * kap i / (etabar i * etabar i) * S "s.X20" i.
-  Proof. pose proof (adm_eta S Hadm i) as He. both ltac:(fun P H => y2_prep P H "s.Y2s"; field; assumption). Qed.
-  Lemma F_Y2c i : S "s.Y2c" i =
-     sG i * spsi i * kap i * kap i / (etabar i * etabar i) * (S "s.X2s" i + S "s.X2c" i * S "s.sigma" i)
-     - sG i * spsi i * kap i * kap i * S "s.sigma" i / (etabar i * etabar i) * S "s.X20" i + S "s.Y20" i.
-  Proof. pose proof (adm_eta S Hadm i) as He. both ltac:(fun P H => y2_prep P H "s.Y2c"; field; assumption). Qed.
-
-  (* ---- derived relations ---- *)
-  Lemma sGspsi_const : is_const (fun k => sG k * spsi k).
-  Proof. apply is_const_mul; [apply (adm_sG_const S Hadm)|apply (adm_spsi_const S Hadm)]. Qed.
-  Lemma R_XY i : X1c i * Y1s i = sG i * spsi i.
-  Proof. rewrite F_X1c, F_Y1s. field. split; [apply (adm_eta S Hadm)|apply (adm_kappa S Hadm)]. Qed.
-  Lemma R_dXY i : S "s.d_X1c_d_varphi" i * Y1s i + X1c i * S "s.d_Y1s_d_varphi" i = 0.
-  Proof. rewrite F_dX1c, F_dY1s. apply (prod_const O HD S X1c Y1s (fun k => sG k * spsi k)); [apply R_XY|apply sGspsi_const]. Qed.
-  Lemma R_d2XY i : S "s.d2_X1c_d_varphi2" i * Y1s i + 2 * S "s.d_X1c_d_varphi" i * S "s.d_Y1s_d_varphi" i + X1c i * S "s.d2_Y1s_d_varphi2" i = 0.
-  Proof. rewrite F_d2X1c, F_d2Y1s. apply (prod_const2 O HD S X1c Y1s); [apply F_dX1c|apply F_dY1s|apply R_dXY]. Qed.
-  Lemma R_kX i : kap i * X1c i = etabar i.
-  Proof. rewrite F_X1c. field. apply (adm_kappa S Hadm). Qed.
-  Lemma R_dkX i : S "s.d_curvature_d_varphi" i * X1c i + kap i * S "s.d_X1c_d_varphi" i = 0.
-  Proof. rewrite F_dkap, F_dX1c. apply (prod_const O HD S kap X1c etabar); [apply R_kX|apply (adm_eta_const S Hadm)]. Qed.
-  (* solved forms: everything first-order in terms of X1c and its derivatives *)
-  Lemma S_Y1s i : Y1s i = sG i * spsi i / X1c i.
-  Proof. rewrite <- R_XY. field. apply X1c_nz. Qed.
-  Lemma S_dY1s i : S "s.d_Y1s_d_varphi" i = - (sG i * spsi i * S "s.d_X1c_d_varphi" i) / (X1c i * X1c i).
-  Proof.
-    pose proof (X1c_nz i) as Hx. pose proof (R_dXY i) as E. rewrite S_Y1s in E.
-    apply (Rmult_eq_reg_l (X1c i)); [|exact Hx].
-    replace (X1c i * S "s.d_Y1s_d_varphi" i) with (- (S "s.d_X1c_d_varphi" i * (sG i * spsi i / X1c i))) by lra.
-    field. exact Hx.
-  Qed.
-  Lemma S_d2Y1s i : S "s.d2_Y1s_d_varphi2" i =
-    sG i * spsi i * (2 * S "s.d_X1c_d_varphi" i * S "s.d_X1c_d_varphi" i - X1c i * S "s.d2_X1c_d_varphi2" i) / (X1c i * X1c i * X1c i).
-  Proof.
-    pose proof (X1c_nz i) as Hx. pose proof (R_d2XY i) as E. rewrite S_dY1s, S_Y1s in E.
-    apply (Rmult_eq_reg_l (X1c i)); [|exact Hx].
-    replace (X1c i * S "s.d2_Y1s_d_varphi2" i) with
-      (- (S "s.d2_X1c_d_varphi2" i * (sG i * spsi i / X1c i) + 2 * S "s.d_X1c_d_varphi" i * (- (sG i * spsi i * S "s.d_X1c_d_varphi" i) / (X1c i * X1c i)))) by lra.
-    field. exact Hx.
-  Qed.
-  Lemma S_kap i : kap i = etabar i / X1c i.
-  Proof. rewrite <- R_kX. field. apply X1c_nz. Qed.
-  Lemma S_dkap i : S "s.d_curvature_d_varphi" i = - (etabar i * S "s.d_X1c_d_varphi" i) / (X1c i * X1c i).
-  Proof.
-    pose proof (X1c_nz i) as Hx. pose proof (R_dkX i) as E. rewrite S_kap in E.
-    apply (Rmult_eq_reg_r (X1c i)); [|exact Hx].
-    replace (S "s.d_curvature_d_varphi" i * X1c i) with (- (etabar i / X1c i * S "s.d_X1c_d_varphi" i)) by lra.
-    field. exact Hx.
-  Qed.
-  (* the two algebraic O(r^2) relations in polynomial form *)
-  Lemma R_Y2s i : S "s.Y2s" i = sG i * spsi i * (- kap i * / 2)
-       + sG i * spsi i * (Y1s i * Y1s i * (- S "s.X2c" i - S "s.X20" i) + Y1s i * Y1c i * S "s.X2s" i).
-  Proof.
-    rewrite F_Y2s, F_Y1s, F_Y1c. pose proof (adm_eta S Hadm i).
-    destruct (pm1 _ (adm_sG S Hadm i)) as [Es|Es]; destruct (pm1 _ (adm_spsi S Hadm i)) as [Ep|Ep]; rewrite Es, Ep; field; assumption.
-  Qed.
-  Lemma R_Y2c i : S "s.Y2c" i = S "s.Y20" i
-       + sG i * spsi i * (Y1s i * Y1s i * S "s.X2s" i + Y1s i * Y1c i * (S "s.X2c" i - S "s.X20" i)).
-  Proof.
-    rewrite F_Y2c, F_Y1s, F_Y1c. pose proof (adm_eta S Hadm i).
-    destruct (pm1 _ (adm_sG S Hadm i)) as [Es|Es]; destruct (pm1 _ (adm_spsi S Hadm i)) as [Ep|Ep]; rewrite Es, Ep; field; assumption.
-  Qed.
-  Ltac dv_push := repeat first [rewrite (Dv_add O HD) | rewrite (Dv_sub O HD) | rewrite (Dv_mul O HD) | rewrite (Dv_neg O HD) | rewrite (Dv_cst O HD)].
-  Lemma R_dY2s i : S "s.d_Y2s_d_varphi" i = sG i * spsi i * (- S "s.d_curvature_d_varphi" i * / 2)
-       + sG i * spsi i * (2 * Y1s i * S "s.d_Y1s_d_varphi" i * (- S "s.X2c" i - S "s.X20" i)
-                          + Y1s i * Y1s i * (- S "s.d_X2c_d_varphi" i - S "s.d_X20_d_varphi" i)
-                          + S "s.d_Y1s_d_varphi" i * Y1c i * S "s.X2s" i + Y1s i * S "s.d_Y1c_d_varphi" i * S "s.X2s" i
-                          + Y1s i * Y1c i * S "s.d_X2s_d_varphi" i).
-  Proof.
-    rewrite F_dY2s. rewrite (Dv_ext O S _ _ i R_Y2s). dv_push.
-    rewrite !(Dv_isconst O HD S sG), !(Dv_isconst O HD S spsi) by (apply (adm_sG_const S Hadm) || apply (adm_spsi_const S Hadm)).
-    rewrite F_dkap, F_dY1s, F_dY1c, F_dX2c, F_dX20, F_dX2s. ring.
-  Qed.
-  Lemma R_dY2c i : S "s.d_Y2c_d_varphi" i = S "s.d_Y20_d_varphi" i
-       + sG i * spsi i * (2 * Y1s i * S "s.d_Y1s_d_varphi" i * S "s.X2s" i + Y1s i * Y1s i * S "s.d_X2s_d_varphi" i
-                          + S "s.d_Y1s_d_varphi" i * Y1c i * (S "s.X2c" i - S "s.X20" i)
-                          + Y1s i * S "s.d_Y1c_d_varphi" i * (S "s.X2c" i - S "s.X20" i)
-                          + Y1s i * Y1c i * (S "s.d_X2c_d_varphi" i - S "s.d_X20_d_varphi" i)).
-  Proof.
-    rewrite F_dY2c. rewrite (Dv_ext O S _ _ i R_Y2c). dv_push.
-    rewrite !(Dv_isconst O HD S sG), !(Dv_isconst O HD S spsi) by (apply (adm_sG_const S Hadm) || apply (adm_spsi_const S Hadm)).
-    rewrite F_dY20, F_dY1s, F_dY1c, F_dX2c, F_dX20, F_dX2s. ring.
-  Qed.
-
+  Ltac nz := repeat split; first [apply X1c_nz | apply sG_nz | apply spsi_nz | apply (adm_eta S Hadm) | apply (adm_kappa S Hadm)
+                                 | apply Rgt_not_eq, (adm_B0 S Hadm) | apply Rgt_not_eq, (adm_lp S Hadm) | lra].
+  Ltac fin := rewrite ?F_d2X1c, ?F_d2Y1s, ?F_d2Y1c, ?F_dX1c, ?F_dY1s, ?F_dY1c, ?F_dkap, ?F_dtau; unfold Rdiv; ring.
   (* ---- the tensor entries ---- *)
   Variable VG : string -> I -> R.
   Hypothesis HG : stage O calculate_grad_grad_B_tensor S VG.
@@ -284,12 +84,6 @@ Section Facts.
   Ltac gg_entry a l :=
     rewrite <- (st_agree _ _ _ _ HG a eq_refl);
     unfold_fixes O calculate_grad_grad_B_tensor (st_fix _ _ _ _ HG) (a :: l :: nil)%list.
-  Lemma sG_nz i : sG i <> 0.
-  Proof. intros E. pose proof (adm_sG S Hadm i) as H. rewrite E in H. lra. Qed.
-  Lemma spsi_nz i : spsi i <> 0.
-  Proof. intros E. pose proof (adm_spsi S Hadm i) as H. rewrite E in H. lra. Qed.
-  Ltac nz := repeat split; first [apply X1c_nz | apply sG_nz | apply spsi_nz | apply (adm_eta S Hadm) | apply (adm_kappa S Hadm)
-                                 | apply Rgt_not_eq, (adm_B0 S Hadm) | apply Rgt_not_eq, (adm_lp S Hadm) | lra].
   Ltac close i :=
     rewrite ?R_dY2s, ?R_dY2c, ?R_Y2s, ?R_Y2c, ?S_d2Y1s, ?S_dY1s, ?S_Y1s, ?S_dkap, ?S_kap, ?F_absG0, ?F_G0;
     pose proof (adm_sG S Hadm i) as Es; pose proof (adm_spsi S Hadm i) as Ep;
@@ -413,7 +207,6 @@ Section Facts.
     assert (E5 : S "s.d_l_d_varphi" = fun _ => c5) by
       (apply functional_extensionality; intros k; rewrite F_dldvp, E6; reflexivity);
     rewrite ?E1, ?E2, ?E3, ?E4, ?E5; cbv beta.
-  Ltac fin := rewrite ?F_d2X1c, ?F_d2Y1s, ?F_d2Y1c, ?F_dX1c, ?F_dY1s, ?F_dY1c, ?F_dkap, ?F_dtau; unfold Rdiv; ring.
   Lemma D_T_tn i : Dv (VT "tensor.tn") i = sG i * B0 i * S "s.d_curvature_d_varphi" i.
   Proof. T_fun "tensor.tn". consts i. dv_push. fin. Qed.
   Lemma D_T_nt i : Dv (VT "tensor.nt") i = sG i * B0 i * S "s.d_curvature_d_varphi" i.
@@ -466,74 +259,14 @@ Section Facts.
   Variable VR : string -> I -> R.
   Hypothesis HR : stage O residual S VR.
   Hypothesis Hsig : sigma_solved O S VR.
-  Lemma F_ebc i : S "s.etabar_squared_over_curvature_squared" i = X1c i * X1c i.
-  Proof.
-    rewrite F_X1c. rewrite <- (st_agree _ _ _ _ HA "s.etabar_squared_over_curvature_squared" eq_refl).
-    unfold_fix O init_axis (st_fix _ _ _ _ HA) "s.etabar_squared_over_curvature_squared".
-    loc2attr init_axis HA "curvature" "s.curvature". to_state HA. field. apply (adm_kappa S Hadm).
-  Qed.
-  Lemma S_sigma i : S "s.sigma" i = sG i * spsi i * Y1c i * X1c i.
-  Proof.
-    rewrite F_Y1c, F_X1c. pose proof (adm_sG S Hadm i) as Es; pose proof (adm_spsi S Hadm i) as Ep.
-    field [Es Ep]. split; [apply (adm_kappa S Hadm)|apply (adm_eta S Hadm)].
-  Qed.
-  Definition sigE (k : I) : R :=
-    sG k * spsi k * (S "s.d_Y1c_d_varphi" k * X1c k + Y1c k * S "s.d_X1c_d_varphi" k)
-    + S "s.iotaN" k * (X1c k * X1c k * X1c k * X1c k + 1 + Y1c k * Y1c k * X1c k * X1c k)
-    - 2 * X1c k * X1c k * (- spsi k * S "s.torsion" k + S "s.I2" k / B0 k) * sG k * aGB k.
-  Lemma R_sig k : sigE k = 0.
-  Proof.
-    destruct Hsig as (Hxs & Hxi & Hr & Hpin & Hio).
-    rewrite <- (Hr k).
-    unfold_fixes O residual (st_fix _ _ _ _ HR) ("r" :: "sigma#2" :: "sigma" :: "iota" :: nil)%list.
-    rewrite Hxs, Hxi. to_state HR. rewrite Hpin. rewrite <- Hio. rewrite F_ebc, F_G0, (S_sigma k).
-    change (o_D O (S "s.sigma") k / S "s.d_varphi_d_phi" k) with (Dv (S "s.sigma") k).
-    rewrite (Dv_ext O S _ _ k S_sigma). dv_push.
-    rewrite !(Dv_isconst O HD S sG), !(Dv_isconst O HD S spsi) by (apply (adm_sG_const S Hadm) || apply (adm_spsi_const S Hadm)).
-    rewrite <- F_dY1c, <- F_dX1c. unfold sigE. pose proof (adm_sG S Hadm k) as Es; pose proof (adm_spsi S Hadm k) as Ep.
-    qsimp. field [Es Ep]. apply Rgt_not_eq, (adm_B0 S Hadm).
-  Qed.
-  Ltac consts2 i :=
-    let c1 := fresh "c" in let c2 := fresh "c" in let c3 := fresh "c" in let c4 := fresh "c" in let c5 := fresh "c" in let c6 := fresh "c" in
-    let E1 := fresh "E" in let E2 := fresh "E" in let E3 := fresh "E" in let E4 := fresh "E" in let E5 := fresh "E" in let E6 := fresh "E" in
-    destruct (adm_sG_const S Hadm) as [c1 E1]; destruct (adm_spsi_const S Hadm) as [c2 E2];
-    destruct (cst_B0 S Hcst) as [c3 E3]; destruct (cst_iotaN S Hcst) as [c4 E4];
-    destruct (cst_lp S Hcst) as [c5 E5]; destruct (cst_I2 S Hcst) as [c6 E6];
-    rewrite ?E1, ?E2, ?E3, ?E4, ?E5, ?E6; cbv beta.
-  Definition sigE2 (k : I) : R :=
-    sG k * spsi k * (S "s.d2_Y1c_d_varphi2" k * X1c k + 2 * S "s.d_Y1c_d_varphi" k * S "s.d_X1c_d_varphi" k + Y1c k * S "s.d2_X1c_d_varphi2" k)
-    + S "s.iotaN" k * (4 * X1c k * X1c k * X1c k * S "s.d_X1c_d_varphi" k + 2 * Y1c k * S "s.d_Y1c_d_varphi" k * X1c k * X1c k
-                       + 2 * Y1c k * Y1c k * X1c k * S "s.d_X1c_d_varphi" k)
-    - 2 * sG k * aGB k * (2 * X1c k * S "s.d_X1c_d_varphi" k * (- spsi k * S "s.torsion" k + S "s.I2" k / B0 k)
-                          + X1c k * X1c k * (- spsi k * S "s.d_torsion_d_varphi" k)).
-  Lemma R_sig2 k : sigE2 k = 0.
-  Proof.
-    assert (E : Dv sigE k = 0) by (rewrite (Dv_ext O S _ (fun _ => 0) k R_sig); apply (Dv_cst O HD)).
-    unfold sigE in E. unfold sigE2. revert E. consts2 k. unfold Rdiv. dv_push. intros HE.
-    etransitivity; [|exact HE]. fin.
-  Qed.
-  Lemma S_dY1c k : S "s.d_Y1c_d_varphi" k =
-    (- Y1c k * S "s.d_X1c_d_varphi" k
-     - sG k * spsi k * (S "s.iotaN" k * (X1c k * X1c k * X1c k * X1c k + 1 + Y1c k * Y1c k * X1c k * X1c k)
-                        - 2 * X1c k * X1c k * (- spsi k * S "s.torsion" k + S "s.I2" k / B0 k) * sG k * aGB k)) / X1c k.
-  Proof.
-    pose proof (adm_sG S Hadm k) as Es; pose proof (adm_spsi S Hadm k) as Ep.
-    match goal with |- _ = ?r => replace (S "s.d_Y1c_d_varphi" k) with (r + sG k * spsi k / X1c k * sigE k) end.
-    - rewrite R_sig. ring.
-    - unfold sigE. field [Es Ep]. nz.
-  Qed.
-  Lemma S_d2Y1c k : S "s.d2_Y1c_d_varphi2" k =
-    (- (2 * S "s.d_Y1c_d_varphi" k * S "s.d_X1c_d_varphi" k + Y1c k * S "s.d2_X1c_d_varphi2" k)
-     - sG k * spsi k * (S "s.iotaN" k * (4 * X1c k * X1c k * X1c k * S "s.d_X1c_d_varphi" k + 2 * Y1c k * S "s.d_Y1c_d_varphi" k * X1c k * X1c k
-                                          + 2 * Y1c k * Y1c k * X1c k * S "s.d_X1c_d_varphi" k)
-                        - 2 * sG k * aGB k * (2 * X1c k * S "s.d_X1c_d_varphi" k * (- spsi k * S "s.torsion" k + S "s.I2" k / B0 k)
-                                              + X1c k * X1c k * (- spsi k * S "s.d_torsion_d_varphi" k)))) / X1c k.
-  Proof.
-    pose proof (adm_sG S Hadm k) as Es; pose proof (adm_spsi S Hadm k) as Ep.
-    match goal with |- _ = ?r => replace (S "s.d2_Y1c_d_varphi2" k) with (r + sG k * spsi k / X1c k * sigE2 k) end.
-    - rewrite R_sig2. ring.
-    - unfold sigE2. field [Es Ep]. nz.
-  Qed.
+  Local Notation F_ebc := (C10_common.F_ebc O HD S VA V1 V2 Hadm HA H1 H2 Hcst VR HR Hsig).
+  Local Notation S_sigma := (C10_common.S_sigma O HD S VA V1 V2 Hadm HA H1 H2 Hcst VR HR Hsig).
+  Local Notation R_sig := (C10_common.R_sig O HD S VA V1 V2 Hadm HA H1 H2 Hcst VR HR Hsig).
+  Local Notation R_sig2 := (C10_common.R_sig2 O HD S VA V1 V2 Hadm HA H1 H2 Hcst VR HR Hsig).
+  Local Notation S_dY1c := (C10_common.S_dY1c O HD S VA V1 V2 Hadm HA H1 H2 Hcst VR HR Hsig).
+  Local Notation S_d2Y1c := (C10_common.S_d2Y1c O HD S VA V1 V2 Hadm HA H1 H2 Hcst VR HR Hsig).
+  Local Notation sigE := (C10_common.sigE S).
+  Local Notation sigE2 := (C10_common.sigE2 S).
   Ltac close2 i := rewrite ?S_d2Y1c, ?S_dY1c; close i.
   Lemma sl_201 : forall i, S "s.grad_grad_B_2_0_1" i = S "s.grad_grad_B_2_1_0" i.
   Proof. intros i; gg_entry "s.grad_grad_B_2_0_1" "grad_grad_B_2_0_1#2"; gg_entry "s.grad_grad_B_2_1_0" "grad_grad_B_2_1_0#2"; gg_locals; to_state HG; close2 i. Qed.
@@ -548,7 +281,7 @@ Section Facts.
     intros HI i b c Hb Hc. destruct (C10_tangent_slice_curl i) as (E1 & E2 & E3). rewrite HI in E3.
     destruct b as [|[|[|b]]]; try lia; destruct c as [|[|[|c]]]; try lia; first [reflexivity|assumption|symmetry; assumption|lra].
   Qed.
-End Facts.
+End Main.
 
 (* ---------- (f) scale length and (g) the API variants: any operators ---------- *)
 Section Variants.
@@ -628,6 +361,7 @@ End Variants.
 (* ---------- summary: the closed statements ---------- *)
 Check C10_two_ways. Check C10_sym12. Check C10_divfree. Check C10_tangent_contraction.
 Check C10_scale_length. Check C10_cylindrical_is_frenet. Check C10_cartesian_is_rotation_of_that. Check C10_cartesian_rotates_frenet.
+Check C10_tangent_slice_curl. Check C10_vacuum_tangent_slice_symmetric.
 Print Assumptions C10_two_ways.
 Print Assumptions C10_sym12.
 Print Assumptions C10_divfree.
@@ -636,6 +370,5 @@ Print Assumptions C10_scale_length.
 Print Assumptions C10_cylindrical_is_frenet.
 Print Assumptions C10_cartesian_is_rotation_of_that.
 Print Assumptions C10_cartesian_rotates_frenet.
-Check C10_tangent_slice_curl. Check C10_vacuum_tangent_slice_symmetric.
 Print Assumptions C10_tangent_slice_curl.
 Print Assumptions C10_vacuum_tangent_slice_symmetric.
